@@ -145,12 +145,18 @@ class StoreProfile(Profile):
         return out
 
     # ---- shared generators ---------------------------------------------------------
+    PUNCT_VDIMS = {2: [["m-x", "m-y"], ["x.1", "x.2"]], 3: [["m-x", "m-y", "m-z"], ["a.b", "a+c", "d"], ["x'", "y'", "z'"]], 4: [["k-1", "k-2", "k-3", "k-4"]]}
+
     def draw_field(self, rng, st, out, ndim, max_cells, max_subs, same_units, reps, **kw):
         cfg = st.cfg
         geo = Geo(cfg["family"])
         mesh = draw_store_mesh(rng, geo, ndim, max_cells, max_subs, same_units, **kw)
         nvdim = rng.choice(cfg["nvdims"])
         vd = rng.choice(SAFE_VDIMS[nvdim]) if nvdim > 1 else None
+        if nvdim in self.PUNCT_VDIMS and rng.random() < 0.12:
+            vd = rng.choice(self.PUNCT_VDIMS[nvdim])  # "any labels without spaces": punctuation is allowed in a label
+        if nvdim == 1 and self.fmt in ("hdf5", "vtk") and rng.random() < 0.25:
+            vd = rng.choice([["T"], ["m_z"], ["rho"]])  # a one-component field may carry a label too
         return {"op": "mkfield", "out": out, "mesh": mesh, "nvdim": nvdim, "vdims": vd, "unit": rng.choice(UNITS)}
 
     def values_for(self, rng, rep):
@@ -167,7 +173,7 @@ class OvfProfile(StoreProfile):
     name = "ovf"
     level = "fault_enumeration"
     fmt = "ovf"
-    required_probes = ("cut_in_data", "cut_in_check", "cut_in_header", "cut_in_tail", "multi_chunk_write", "path_reuse", "stale_sidecar_candidate", "foreign_ovf", "sweep_done", "recovery_read", "rejected_write_over_existing_with_subregions")
+    required_probes = ("cut_in_data", "cut_in_check", "cut_in_header", "cut_in_tail", "multi_chunk_write", "path_reuse", "stale_sidecar_candidate", "foreign_ovf", "sweep_done", "recovery_read", "rejected_write_over_existing_with_subregions", "damaged_foreign_file")
     rule = (
         "one case = one seeded store history (3-30 ops) of OVF writers (bin8/bin4/txt, extend_scalar, side-car on/off) and readers, "
         "foreign OVF 1.0/2.0 writers, an independent OVF 2.0 parser, and faults (torn write at byte c, lost tail, damaged check "
@@ -264,6 +270,9 @@ class OvfProfile(StoreProfile):
         choices += ["copy", "delete", "newfield"]
         c = rng.choice(choices)
         rel = rng.choice(paths)
+        fbin = [p for p in paths if st.paths[p].foreign is not None and st.paths[p].layout is not None and st.paths[p].damage is None]
+        if c in ("flip", "truncate") and fbin and rng.random() < 0.5:
+            rel = rng.choice(fbin)  # files of the foreign writers are damaged like the package's own
         if c == "flip":
             how = rng.choice([{"kind": "bits", "bits": [rng.randrange(64) for _ in range(rng.choice([1, 1, 2, 8, 64]))]}, {"kind": "nan"}, {"kind": "inf"}, {"kind": "zero"}, {"kind": "other"}, {"kind": "neg"}])
             return {"op": "flip_check", "path": rel, "how": how, "fault": "flip_check"}
